@@ -49,6 +49,101 @@ func Keys(n int) []WalletKey {
 	return out
 }
 
+// Decoy is an entry of the wallet directory whose file NAME matches the naming rule for an
+// address - so the address is listed by eth_accounts - but whose content must never lead
+// to a signature for that address: the key file holds ANOTHER account's key (a mis-filed
+// or renamed key file), is not a key file at all, or has no usable password.
+type Decoy struct {
+	Kind    string   // misfiled-wallet-key | misfiled-foreign-key | garbage | wrong-password | no-password
+	Address [20]byte // the address the file is named for
+	AddrHex string   // 40 lower-case hex digits, no prefix
+	Holds   string   // 40 hex digits of the address whose key the file really holds ("" = none usable)
+}
+
+// Addr0x returns the lower-case 0x-prefixed address the decoy is filed under.
+func (d Decoy) Addr0x() string { return "0x" + d.AddrHex }
+
+func labelKey(label string) (*big.Int, [20]byte) {
+	for i := 0; ; i++ {
+		d := new(big.Int).SetBytes(secp.Keccak256([]byte(fmt.Sprintf("%s/%d", label, i))))
+		d.Mod(d, secp.N)
+		if secp.ValidScalar(d) {
+			return d, secp.AddressOfKey(d)
+		}
+	}
+}
+
+// DecoyKinds lists the kinds of decoy entries every test wallet contains, in order.
+var DecoyKinds = []string{"misfiled-wallet-key", "misfiled-foreign-key", "garbage", "wrong-password", "no-password"}
+
+// Decoys returns the deterministic decoy entries of the test wallet (same in every run).
+func Decoys(keys []WalletKey) []Decoy {
+	out := make([]Decoy, 0, len(DecoyKinds))
+	for _, kind := range DecoyKinds {
+		_, a := labelKey("verifharness decoy " + kind)
+		d := Decoy{Kind: kind, Address: a, AddrHex: hex.EncodeToString(a[:])}
+		switch kind {
+		case "misfiled-wallet-key":
+			d.Holds = keys[len(keys)-1].AddrHex
+		case "misfiled-foreign-key":
+			_, f := labelKey("verifharness foreign key")
+			d.Holds = hex.EncodeToString(f[:])
+		}
+		out = append(out, d)
+	}
+	return out
+}
+
+// WriteDecoys adds the decoy entries to a wallet directory written by WriteWallet.
+func WriteDecoys(dir string, keys []WalletKey, decoys []Decoy, primaryExt, passwordExt string) error {
+	for i, d := range decoys {
+		salt := secp.Keccak256([]byte(fmt.Sprintf("verifharness decoy salt #%d", i)))
+		iv := secp.Keccak256([]byte(fmt.Sprintf("verifharness decoy iv #%d", i)))[:16]
+		uuid := fmt.Sprintf("00000000-0000-4000-9000-%012x", i+1)
+		own, _ := labelKey("verifharness decoy " + d.Kind)
+		priv := make([]byte, 32)
+		password, filePassword := "decoy password", "decoy password\n"
+		var doc []byte
+		var err error
+		switch d.Kind {
+		case "misfiled-wallet-key":
+			// a faithful copy of another account's key file (its informational address member
+			// included) and of its password file, stored under this address's name
+			k := keys[len(keys)-1]
+			k.Priv.FillBytes(priv)
+			password, filePassword = k.Password, k.Password+"\n"
+			doc, err = KeystoreV3(priv, k.AddrHex, password, salt, iv, uuid)
+		case "misfiled-foreign-key":
+			// a key that belongs to no account of the wallet; the address member claims the file name's address
+			f, _ := labelKey("verifharness foreign key")
+			f.FillBytes(priv)
+			doc, err = KeystoreV3(priv, d.AddrHex, password, salt, iv, uuid)
+		case "garbage":
+			doc = []byte("this is not a key file\n")
+		case "wrong-password":
+			own.FillBytes(priv)
+			doc, err = KeystoreV3(priv, d.AddrHex, password, salt, iv, uuid)
+			filePassword = "not the " + password + "\n"
+		default: // no-password: the right key, but no password file (and the process has no default password file)
+			own.FillBytes(priv)
+			doc, err = KeystoreV3(priv, d.AddrHex, password, salt, iv, uuid)
+			filePassword = ""
+		}
+		if err != nil {
+			return err
+		}
+		if err := os.WriteFile(filepath.Join(dir, d.AddrHex+primaryExt), doc, 0o600); err != nil {
+			return err
+		}
+		if filePassword != "" {
+			if err := os.WriteFile(filepath.Join(dir, d.AddrHex+passwordExt), []byte(filePassword), 0o600); err != nil {
+				return err
+			}
+		}
+	}
+	return nil
+}
+
 // KeystoreV3 renders a Web3 Secret Storage V3 document for priv with the cheapest
 // scrypt parameters the format allows (N=2, r=1, p=1, dklen=32), AES-128-CTR and
 // MAC = keccak256(DK[16:32] ‖ ciphertext).  salt is 32 bytes, iv 16 bytes.
